@@ -20,7 +20,7 @@ from __future__ import annotations
 
 import itertools
 
-from engine.absint import Interp, Obj, Unsupported, _Raise
+from engine.absint import TOP, Interp, Obj, PyFunc, Unsupported, _Raise
 from engine.loader import AnalysisError
 
 RX = "param.reactive.rx"
@@ -40,35 +40,64 @@ class World:
         self.wrapper = Obj("input_owner")
         fn = Obj("root_function")
         shared = [self.A]
-        self.op1, self.op2 = Obj("operation_1", name="op1"), Obj("operation_2", name="op2")
+        # the operations are the dicts rx builds: a function, its arguments (here: a container that holds a
+        # reference to the second input -- resolve_value looks inside it, a non-recursive resolve_ref does not)
+        self.argref = Obj("container_holding_a_reference_to_the_argument")
+        self.op1 = {"fn": PyFunc("op1", self.apply_op1), "args": (self.argref,), "kwargs": {}, "reverse": False}
+        self.op2 = {"fn": PyFunc("op2", self.apply_op2), "args": (), "kwargs": {}, "reverse": False}
 
         def node(name, prev, op):
             return Obj(name, __cls__=RX, _prev=prev, _operation=op, _method=None, _fn=fn, _shared_obj=shared, _trigger=None, _current_task=None,
                        _dirty=True, _dirty_obj=False, _error_state=None, _current_=None)
         self.root = node("root", None, None)
         self.mid = node("mid", self.root, self.op1)
+        # the middle node owns a Trigger (as nodes with a coroutine operation do): its own events must be ignored
+        self.mid_trigger = Obj("trigger_of_mid")
+        self.mid.attrs["_trigger"] = self.mid_trigger
         self.leaf = node("leaf", self.mid, self.op2)
         for nd in (self.root, self.mid, self.leaf):
             nd.attrs["_root"] = self.root
         self.evals = 0
 
-    def result(self, op, x, arg=None):
-        k = (op.name, id(x), id(arg))
+    def result(self, opname, x, arg=None):
+        k = (opname, id(x), id(arg))
         if k not in self.memo:
-            self.memo[k] = Obj("%s(%s%s)" % (op.attrs["name"], x.name, ", " + arg.name if arg is not None else ""))
+            self.memo[k] = Obj("%s(%s%s)" % (opname, x.name, ", " + arg.name if arg is not None else ""))
         return self.memo[k]
+
+    def apply_op1(self, obj, argval):
+        self.evals += 1
+        if obj is TOP or argval is TOP:
+            raise Unsupported("op1 applied to an unknown value")
+        if not isinstance(obj, Obj):
+            obj = self.memo.setdefault(("junk", repr(obj)), Obj("<%r>" % (obj,)))     # e.g. a node that was never evaluated hands on None
+        if not isinstance(argval, Obj):
+            argval = self.memo.setdefault(("junk", repr(argval)), Obj("<%r>" % (argval,)))
+        if obj is self.BAD or argval is self.BADARG:
+            raise _Raise("ValueError")
+        return self.result("op1", obj, argval)
+
+    def apply_op2(self, obj):
+        self.evals += 1
+        if obj is TOP:
+            raise Unsupported("op2 applied to an unknown value")
+        if not isinstance(obj, Obj):
+            obj = self.memo.setdefault(("junk", repr(obj)), Obj("<%r>" % (obj,)))
+        return self.result("op2", obj)
 
     def hook(self, fn, args, kwargs):
         if fn == "eval_function_with_deps":
             return self.cur
-        if fn == "self._eval_operation" and len(args) == 2:
-            self.evals += 1
-            obj, op = args
-            if not isinstance(obj, Obj) or not isinstance(op, Obj):
-                raise Unsupported("_eval_operation on %r / %r" % (obj, op))
-            if op is self.op1 and (obj is self.BAD or self.arg is self.BADARG):
-                raise _Raise("ValueError")
-            return self.result(op, obj, self.arg if op is self.op1 else None)
+        if fn == "resolve_value" and args:
+            if args[0] is self.argref:
+                return self.arg                      # looks inside the container
+            return args[0]
+        if fn == "resolve_ref" and args:
+            if args[0] is self.argref:
+                return [Obj("dependency_on_the_argument")] if kwargs.get("recursive") or (len(args) > 1 and args[1] is True) else []
+            return []
+        if fn == "isinstance" and len(args) == 2:
+            return isinstance(args[0], str)
         if fn in ("inspect.isasyncgen", "inspect.iscoroutine", "inspect.isgenerator"):
             return False
         if fn == "hasattr" and len(args) == 2:
@@ -82,7 +111,7 @@ class World:
         if f is None:
             raise AnalysisError("rx model: rx.%s not found" % method)
         it = Interp(self.ctx.hier, dyn=RX, inline=lambda m: True, call_hook=self.hook,
-                    globals={"Skip": "<Skip>", "Undefined": Obj("Undefined")}, strict_self_calls=True, max_steps=4000)
+                    globals={"Skip": "<Skip>", "Undefined": Obj("Undefined")}, strict_self_calls=True, max_steps=4000, inline_module_functions=True)
         env = {f.params[0]: node}
         a = f.node.args
         if a.vararg:
@@ -105,12 +134,19 @@ class World:
         for nd in (self.mid, self.leaf):          # the nodes whose dependency list contains the argument
             self.call(nd, "_invalidate_current", [ev])
 
+    def own_trigger_event(self):
+        """The Trigger of the middle node fires (e.g. a superseded asynchronous evaluation reporting in):
+        the node itself ignores it, the nodes downstream are invalidated."""
+        ev = Obj("event", obj=self.mid_trigger, name="value")
+        for nd in (self.mid, self.leaf):
+            self.call(nd, "_invalidate_current", [ev])
+
     def read(self, node):
         return self.call(node, "_resolve", [])
 
 
 def model(ctx, depth):
-    ops = ["read leaf", "read mid", "set A", "set B", "set bad", "set arg P", "set arg Q", "set arg bad"]
+    ops = ["read leaf", "read mid", "set A", "set B", "set bad", "set arg P", "set arg Q", "set arg bad", "own trigger of mid fires"]
     n, bad = 0, []
     for L in range(0, depth + 1):
         for hist in itertools.product(ops, repeat=L):
@@ -119,6 +155,10 @@ def model(ctx, depth):
             trace = []
             try:
                 for op in list(hist) + ["read leaf"]:
+                    if op.startswith("own trigger"):
+                        w.own_trigger_event()
+                        trace.append(op)
+                        continue
                     if op.startswith("set arg"):
                         w.update_arg({"P": w.P, "Q": w.Q, "bad": w.BADARG}[op.split()[2]])
                         trace.append(op)
@@ -133,8 +173,8 @@ def model(ctx, depth):
                         ok = o.kind == "raise"
                         want = "raises"
                     else:
-                        r1 = w.result(w.op1, w.cur, w.arg)
-                        want_v = w.result(w.op2, r1) if node is w.leaf else r1
+                        r1 = w.result("op1", w.cur, w.arg)
+                        want_v = w.result("op2", r1) if node is w.leaf else r1
                         ok = o.kind == "return" and o.value is want_v
                         want = want_v.name
                     got = ("raises %s" % getattr(o, "what", "")) if o.kind == "raise" else repr(o.value)
